@@ -2,6 +2,7 @@ import CoapLite.Driver.Util
 import CoapLite.Driver.Tbl
 import CoapLite.Model.Codec
 import CoapLite.Model.CopyTrace
+import CoapLite.Model.Builder
 
 namespace CoapLite.Driver
 open CoapLite Codec
@@ -86,22 +87,23 @@ def buildSpec (ws : List String) : Res Packet :=
 def parseLimit (s : String) : Option Nat :=
   if s == "none" then none else if s == "default" then some Consts.maxSize else some (nat! s)
 
-def applyOp (p : Packet) (op : String) : Res Packet :=
+/-- parse one builder call of the protocol into `Builder.BOp` -/
+def parseBOp (op : String) : Option Builder.BOp :=
   match words op with
-  | ["ver", v] => .ok { p with header := p.header.setVersion (UInt8.ofNat (nat! v)) }
-  | ["typ", t] => .ok { p with header := p.header.setType (mtypeOf (nat! t)) }
-  | ["tkl", n] => (p.header.setTkl (UInt8.ofNat (nat! n))).map (fun h => { p with header := h })
-  | ["tok", t] => p.setToken (parseVal t)
-  | ["add", n, v] => .ok (p.addOption (CoapOption.toU16 (CoapOption.ofU16 (nat! n))) (parseVal v))
+  | ["ver", v] => some (.ver (UInt8.ofNat (nat! v)))
+  | ["typ", t] => some (.typ (mtypeOf (nat! t)))
+  | ["tkl", n] => some (.tkl (UInt8.ofNat (nat! n)))
+  | ["tok", t] => some (.tok (parseVal t))
+  | ["add", n, v] => some (.add (CoapOption.toU16 (CoapOption.ofU16 (nat! n))) (parseVal v))
   | ["set", n, vs] =>
       let l := if vs == "_" then [] else (vs.splitOn ",").map parseVal
-      .ok (p.setOption (CoapOption.toU16 (CoapOption.ofU16 (nat! n))) l)
-  | ["clr", n] => .ok (p.clearOption (CoapOption.toU16 (CoapOption.ofU16 (nat! n))))
-  | ["clrall"] => .ok p.clearAllOptions
-  | ["code", c] => .ok { p with header := { p.header with code := parseCodeSpec c } }
-  | ["mid", m] => .ok { p with header := { p.header with mid := nat! m } }
-  | ["pay", x] => .ok { p with payload := parseVal x }
-  | _ => .panic
+      some (.set (CoapOption.toU16 (CoapOption.ofU16 (nat! n))) l)
+  | ["clr", n] => some (.clr (CoapOption.toU16 (CoapOption.ofU16 (nat! n))))
+  | ["clrall"] => some .clrAll
+  | ["code", c] => some (.code (parseCodeSpec c))
+  | ["mid", m] => some (.mid (nat! m))
+  | ["pay", x] => some (.pay (parseVal x))
+  | _ => none
 
 def pkt (ws : List String) : String :=
   match ws with
@@ -135,9 +137,8 @@ def pkt (ws : List String) : String :=
     | .err _ => "err"
     | .panic => "panic"
   | "api" :: rest =>
-    let ops := (" ".intercalate rest).splitOn ";"
-    let r := ops.foldl (fun (acc : Res Packet) op => acc.bind (fun p => applyOp p op)) (.ok Packet.new)
-    match r with
+    let ops := ((" ".intercalate rest).splitOn ";").filterMap parseBOp
+    match Builder.build ops with
     | .ok p => dumpPacket p ++ " | " ++ showBytes (enc p none)
     | _ => "panic"
   | _ => "bad-op"
